@@ -11,13 +11,17 @@ CONSTANTS MasterVersion, LocalVersion, Centre, SubCentre
 Ident == [Ident0 EXCEPT !.mversion = MasterVersion, !.lversion = LocalVersion, !.centre = Centre, !.subcentre = SubCentre]
 
 EmitEntry(e) ==
-    [lab |-> e.lab, t |-> e.t, w |-> e.w, sc |-> e.sc, link |-> e.link,
+    [lab |-> e.lab, t |-> e.t, w |-> e.w, sc |-> e.sc, link |-> e.link, d |-> e.d,
      v |-> [i \in 1..Len(e.v) |-> [miss |-> e.v[i].miss, raw |-> e.v[i].raw, N |-> NOf(e, i)]]]
 
 Behaviour ==
     [tid |-> tid, ids |-> Templates[tid], ed |-> ed, cmp |-> cmp, nsub |-> nsub, seed |-> seed, err |-> err,
-     nbits |-> Len(bits),
-     msg |-> Message(ed, Ident, <<>>, nsub, TRUE, cmp, Templates[tid], bits),
+     nbits_used |-> pos,
+     padding_nonzero |-> IF Mode = "consume" /\ err = ""
+                         THEN \E i \in (DataBit0 + pos + 1)..(8 * (Hdrs[tid].s4 + Hdrs[tid].l4)) : BitOf(Oct, i) = 1
+                         ELSE FALSE,
+     nbits |-> Len(bits), mversion |-> MasterVersion, lversion |-> LocalVersion, centre |-> Centre, subcentre |-> SubCentre,
+     msg |-> IF Mode = "produce" THEN Message(ed, Ident, <<>>, nsub, TRUE, cmp, Templates[tid], bits) ELSE <<>>,
      subsets |-> [s \in 1..Len(AllOut) |-> [i \in 1..Len(AllOut[s]) |-> EmitEntry(AllOut[s][i])]]]
 
 Emit == Finished => PrintT(ToJson(Behaviour))
